@@ -223,13 +223,13 @@ class Layout:
     def xml(self):
         sch = self.sch
         out = ['<?xml version="1.0" encoding="UTF-8"?>',
-               '<sbe:messageSchema xmlns:sbe="http://fixprotocol.io/2016/sbe" package="%s" id="%d" version="%d" byteOrder="%s" headerType="%s">' % (self.pkg, sch["id"], sch["version"], sch["byte_order"], sch["header"]["name"]),
+               '<sbe:messageSchema xmlns:sbe="http://fixprotocol.io/2016/sbe" package="%s" id="%d" version="%d" byteOrder="%s" headerType="%s" description="a &quot;quoted&quot; \\ backslashed {braced} 100%% description: it&apos;s text, not code" semanticVersion="1.0 &quot;rc&quot;\\">' % (self.pkg, sch["id"], sch["version"], sch["byte_order"], sch["header"]["name"]),
                "  <types>"]
         for t in [sch["header"]] + sch["types"]:
             self._xml_enc(t, out, 2)
         out.append("  </types>")
         for m in sch["messages"]:
-            attrs = 'name="%s" id="%d"' % (m["name"], m["_id"])
+            attrs = 'name="%s" id="%d" description="msg &quot;%s&quot; \\n" semanticType="t&apos;\\"' % (m["name"], m["_id"], m["name"])
             if m["_bl"] is not None:
                 attrs += ' blockLength="%d"' % m["_bl"]
             out.append("  <sbe:message %s>" % attrs)
